@@ -32,6 +32,7 @@ def rules(ctx):
     c016(ctx)
     c017(ctx)
     c017_closed(ctx)
+    c019(ctx)
     c018(ctx)
     # a key (or tombstone) missing from an SST's bloom filter makes Sst::load miss it and the search fall through to
     # an older version: the builder-side accumulation rule of C10.2 is a necessary condition of point reads too
@@ -231,6 +232,43 @@ def c017_closed(ctx):
                   "find_best_compaction offers a compaction without checking the levels strictly between lower and upper for files that overlap its "
                   "final key range and are not inputs (the bounds are computed top-down in one pass and expansion adds only contained files): such a "
                   "file holds older versions than the data the compaction carries past it, and a point read then returns k-OLD", pt=p_)
+
+
+def c019(ctx):
+    R = "C01.9"
+    ctx.declare(R, "recovery derives levels from metadata alone; two key-overlapping files whose timestamp ranges interleave cannot be ordered that way "
+                   "(construct_adj_list links them in both directions, so they form one component) and must not be flattened into one level, "
+                   "because every level is read first-hit-wins")
+    adj = ctx.fn(R, "lsmtk::tree::recover::construct_adj_list")
+    rec = ctx.fn(R, "lsmtk::tree::recover::recover")
+    if not adj or not rec:
+        return
+    # the both-directions arm exists: some block inserts (i, j) and a successor inserts (j, i) with no timestamp comparison between
+    ins = P.call_points(adj, r"BTreeSet.*::insert$")
+    ctx.floor(R, "edge insertions in construct_adj_list", len(ins), 4)
+    both = [p_ for p_ in ins if any(q_ != p_ and P.reach(adj, P.after(adj, p_), [q_], avoid=set(pt for b in P.switch_blocks(adj) for pt in [P.term_pt(adj, b.idx)])) is not None
+                                     for q_ in ins)]
+    if not both:
+        ctx.ok(R, adj, "no pair of files is linked in both directions: every overlapping pair is ordered")
+        return
+    # where files are handed to their level: is the component's size (Vertex.peers) ever consulted on the way?
+    pushes = [p_ for p_ in P.call_points(rec, r"alloc::vec::Vec.*::push$") if "SstMetadata" in str(P.term_at(rec, p_).get("ga"))]
+    ctx.floor(R, "recover: files handed to a level", len(pushes), 1)
+    for p_ in pushes:
+        sized = False
+        for bb, lab, srcs in K.guards(rec, p_):
+            for s_ in srcs:
+                if s_["k"] == "field" and s_["f"] in ("peers", "bytes_within_color"):
+                    sized = True
+                if s_["k"] == "bin":
+                    for o_ in (s_["st"]["rv"]["a"], s_["st"]["rv"]["b"]):
+                        if any(x["k"] == "field" and x["f"] == "peers" for x in P.origins(rec, o_)):
+                            sized = True
+        ctx.check(R, rec, "unordered-files-share-a-level", sized,
+                  "a component of mutually unordered files is treated specially before its files are handed to a level",
+                  "recover hands every file of a strongly connected component to the same level without looking at the component's size: a compaction "
+                  "output whose timestamp range straddles that of a newer, key-overlapping file lands in that file's level after a clean reopen, sorts "
+                  "before it by first key, and a point read stops at its older version (l-OLD instead of l-NEW)", pt=p_)
 
 
 def false_edges_of(f, callee_pat, arg_pred=None):
